@@ -46,8 +46,13 @@ fn gen_seq(r: &mut Rng, depth: usize) -> String {
 /// a regex of the generated language (DSL-escaped text, actual pattern)
 fn gen_regex(r: &mut Rng) -> (String, String) {
     let esc = match r.below(30) {
-        0 => "\\\\b".to_string(),          // matches empty inside a non-empty string only: runtime error
+        // match empty inside a non-empty string only (never on ""): accepted at load time, a runtime error as soon as the first
+        // match of the arm in what is left is empty — wherever in what is left it starts
+        0 | 5 => r.pick(&["\\\\b", "\\\\b", "a*\\\\b", "\\\\B", "c?\\\\b", "(b|\\\\b)"]).to_string(),
         1 => "a*".to_string(),              // nullable: rejected at load time
+        // an arm that is anchored at its START as a whole: it can fail at one restart position and match at a later one, because
+        // every restart searches the text that is left as a fresh haystack
+        2 | 3 | 4 => r.pick(&["^b", "^a", "^[ab]", "\\\\bb", "\\\\ba", "\\\\Ba", "\\\\B[ab]", "^ab", "\\\\b[a-c1]+", "^c", "^ +"]).to_string(),
         _ => {
             // a mandatory atom keeps most arms non-nullable
             if r.chance(1, 2) { format!("{}{}", gen_atom(r, 0), gen_seq(r, 2)) } else { format!("{}{}", gen_seq(r, 2), gen_atom(r, 0)) }
@@ -123,6 +128,18 @@ fn observed_trace(g: &Sexp) -> Vec<(usize, Vec<String>)> {
     out
 }
 
+/// (arms as written in the DSL, subject): shapes that random generation reaches too rarely — an arm whose first match in what
+/// is left is EMPTY but does not start at the restart offset, next to an earlier arm that matches at the same place and
+/// consumes the rest (an empty first match is an error wherever it starts)
+const FIXED: &[(&[&str], &str)] = &[
+    (&["[a-z]+", "\\\\b"], " ab"),
+    (&["[a-c]+", "a*\\\\b"], "- ab"),
+    (&["b+", "c?\\\\b"], "  bb"),
+    (&["[ab]+", "(x|\\\\b)"], "\u{e9} ab"),
+    (&["\\\\w+", "\\\\b"], "  a1 "),
+    (&["a", "\\\\B"], "a  "),
+];
+
 pub fn run(rep: &mut Report, tier: &str, seed: u64) {
     rep.rule = "arm lists of 1-4 regexes from a generated regex language (classes, alternation, groups, optional groups, +, $ anchors, multi-byte literals, \
                 a word-boundary arm, a nullable arm) x subject strings over a small alphabet incl. non-ASCII x {strict, lazy}; a quarter with a nested scan over $0; \
@@ -152,13 +169,23 @@ pub fn run(rep: &mut Report, tier: &str, seed: u64) {
         if esc.is_empty() {
             continue;
         }
-        let subject = gen_subject(&mut r);
-        let nested = r.chance(1, 4);
+        let mut subject = gen_subject(&mut r);
+        let mut nested = r.chance(1, 4);
+        if ci < FIXED.len() {
+            esc = FIXED[ci].0.iter().map(|e| e.to_string()).collect();
+            actual = esc.iter().map(|e| e.replace("\\\\", "\\")).collect();
+            subject = FIXED[ci].1.to_string();
+            nested = false;
+            rep.count("fixed-shape");
+        }
         let regexes: Vec<Regex> = actual.iter().map(|a| Regex::new(a).unwrap()).collect();
         // arms with an EMPTY block take part in the selection like any other arm (and consume their match); they leave no record
         let mut empty: Vec<bool> = (0..esc.len()).map(|_| r.chance(1, 5)).collect();
         if empty.iter().all(|e| *e) {
             empty[0] = false;
+        }
+        if ci < FIXED.len() {
+            empty.iter_mut().for_each(|e| *e = false);
         }
         let mut text = format!("(module) @m {{\n  let _u = @m\n  node root\n  scan \"{}\" {{\n", subject);
         for (k, e) in esc.iter().enumerate() {
